@@ -220,10 +220,11 @@ fn run_group(acc: &mut Acc, spec: &Spec, inst: &mut Instance, g: &Group<'_>, sel
                 }
                 // the observed text of an order-dependent case differs from process to process:
                 // keep it out of the message so that replay can compare executions
+                let what = format!("[{} / {} / render {entry}]", g.detail, b.tag);
                 let msg = if adm.len() > 1 {
-                    format!("{kind}: the engine's answer matches none of the {} admissible outcomes", adm.len())
+                    format!("{what} {kind}: the engine's answer matches none of the {} admissible outcomes", adm.len())
                 } else {
-                    format!("{kind}: engine gave {}, expected {}", out.show(), adm[0].show())
+                    format!("{what} {kind}: engine gave {}, expected {}", out.show(), adm[0].show())
                 };
                 acc.violation(sig, msg, || case_json(p, entry, b, &adm));
             } else if entry == MAIN {
@@ -291,6 +292,34 @@ fn main() {
         }),
     );
 
+    // ------------------------------------------------------------------ include of an extending template
+    let incext = Spec {
+        name: "include-extends",
+        nontrivial: |_, _| true,
+        class: plain_class,
+        signature: |_g, b, k| format!("include-of-extending-template:{b}:{k}"),
+        // the behaviour before the repair b2aa72a keeps its own signature
+        recognize: Some(|p, entry, b, out| match (out, refinterp::render_with_old_include_of_extending(p, entry, b)) {
+            (Out::Ok(s), Outcome::Ok(t)) if *s == t && entry != "c" => {
+                Some("include-of-extending-template-renders-only-own-nodes".to_string())
+            }
+            _ => None,
+        }),
+    };
+    run.family(
+        Family::new(
+            "include-extends",
+            fam::incext_items(thorough),
+            "5 includers (after a set, in a loop over a, in a set-block, in a filter section, plain) x 7 children (override, no override, override reading a, super(), set / set_global inside the block, 3-level chain with two super()) x 2 bases x 4 (context, global) configurations x 3 placements, plus the child rendered directly",
+        ),
+        |item, acc: &mut Acc| {
+            fam::incext_decode(item, thorough, &mut |g| {
+                let mut inst = Instance::new();
+                run_group(acc, &incext, &mut inst, &g, true);
+            });
+        },
+    );
+
     // ------------------------------------------------------------------ F1
     let f1 = Spec {
         name: "f1-branch",
@@ -325,7 +354,7 @@ fn main() {
         name: "f2-loop",
         nontrivial: |o, s| o.is_ok() && (s.iterations > 0 || s.else_runs > 0),
         class: plain_class,
-        signature: |g, b, k| format!("loop:{g}:{b}:{k}"),
+        signature: |g, _b, k| format!("loop:{g}:{k}"),
         recognize: None,
     };
     run.family(
@@ -378,7 +407,7 @@ fn main() {
         name: "f4-capture",
         nontrivial: |o, s| o.is_ok() && s.captures > 0,
         class: plain_class,
-        signature: |g, b, k| format!("capture:{g}:{b}:{k}"),
+        signature: |g, _b, k| format!("capture:{g}:{k}"),
         recognize: None,
     };
     run.family(
@@ -424,34 +453,6 @@ fn main() {
                 let mut inst = Instance::new();
                 run_group(acc, &f5, &mut inst, &g, n == 0 && item % 32 == 0);
                 n += 1;
-            });
-        },
-    );
-
-    // ------------------------------------------------------------------ include of an extending template
-    let incext = Spec {
-        name: "include-extends",
-        nontrivial: |_, _| true,
-        class: plain_class,
-        signature: |_g, b, k| format!("include-of-extending-template:{b}:{k}"),
-        // the behaviour before the repair b2aa72a keeps its own signature
-        recognize: Some(|p, entry, b, out| match (out, refinterp::render_with_old_include_of_extending(p, entry, b)) {
-            (Out::Ok(s), Outcome::Ok(t)) if *s == t && entry != "c" => {
-                Some("include-of-extending-template-renders-only-own-nodes".to_string())
-            }
-            _ => None,
-        }),
-    };
-    run.family(
-        Family::new(
-            "include-extends",
-            fam::incext_items(thorough),
-            "5 includers (after a set, in a loop over a, in a set-block, in a filter section, plain) x 7 children (override, no override, override reading a, super(), set / set_global inside the block, 3-level chain with two super()) x 2 bases x 4 (context, global) configurations x 3 placements, plus the child rendered directly",
-        ),
-        |item, acc: &mut Acc| {
-            fam::incext_decode(item, thorough, &mut |g| {
-                let mut inst = Instance::new();
-                run_group(acc, &incext, &mut inst, &g, true);
             });
         },
     );
